@@ -128,7 +128,7 @@ pub fn run(ctx: &Ctx, ev: &mut Ev) {
     if ctx.want("random") {
         let ints = interesting();
         let mut r = ctx.rng(16);
-        let n = ctx.budget(300_000, 10_000_000);
+        let n = ctx.budget(300_000, 60_000_000);
         for _ in 0..n {
             let len = r.below(if tiny { 30 } else { 90 }); let filler = [0x61u32, 0xE9, 0x4E00, 0x5D0][r.below(4)];
             let mut s = String::new();
